@@ -16,7 +16,7 @@ LEVEL = "exploration"
 TECHNIQUE = ("round trip + re-parse fixpoint + metamorphic perturbation against "
              "an independent exact-patching reference; Hypothesis pairs and an "
              "exhaustive small-alphabet enumeration")
-RULE = ("generated: old text of 0-14 lines over a 12-line alphabet (plain lines, "
+RULE = ("generated: old text of 0-14 lines over a 14-line alphabet (plain lines, "
         "lines that look like diff syntax '+', '-', '@@', '\\\\ No newline', CR "
         "lines, blank), new text = 0-5 edits of old or independent, optional "
         "missing final newline on either side, context 0-5, patience or difflib "
@@ -469,7 +469,7 @@ def kinds(tier):
         Kind("enum-small", run_enum_block, enumerate=enum_blocks,
              exhaustive=True, hash_cases=False),
         Kind("pairs", run_pair, strategy=gen_pair(),
-             examples={"quick": 20000, "thorough": 1000000}),
+             examples={"quick": 20000, "thorough": 600000}),
         Kind("perturbed", run_perturbed, strategy=gen_pair(max_len=10),
              examples={"quick": 4000, "thorough": 150000}),
     ]
